@@ -38,7 +38,10 @@ git diff HEAD > "/tmp/cs/$ID.patch"
 go build ./... > "$LOG.build" 2>&1 || { echo "$ID: BUILD-FAILS"; git -C /repo worktree remove --force "$WT"; exit 4; }
 go test -vet=off -count=1 -timeout 900s ./... > "$LOG.suite" 2>&1; RC_SUITE=$?
 if [ $RC_SUITE -ne 0 ] && grep -q "TestMetricsCollector_Performance" "$LOG.suite" && [ "$(grep -c '^--- FAIL' "$LOG.suite")" = "1" ]; then
-  go test -vet=off -count=1 ./internal/rebalancing/ > "$LOG.suite2" 2>&1 && RC_SUITE=0
+  for try in 1 2 3 4; do
+    if go test -vet=off -count=1 ./internal/rebalancing/ > "$LOG.suite2" 2>&1; then RC_SUITE=0; break; fi
+    sleep 5
+  done
 fi
 cp "$DEMO" "$DIR/zz_seed_demo_test.go"
 go test -vet=off -count=1 $RACE -timeout 600s "./$DIR" -run 'C[0-9][0-9]|Demo|Probe|Seed' > "$LOG.mut" 2>&1; RC_MUT=$?
